@@ -493,5 +493,11 @@ _amend("C01", "text", "Decides fifty-six structural", "Decides fifty-seven struc
 _amend("C03", "text", "Decides twenty-six local clauses (R03.1-R03.26;", "Decides twenty-seven local clauses (R03.1-R03.27; R03.27: only attributes with a missing-value default are dropped for having it (reference table);")
 _amend("C03", "text", "the colgroup end tag stays in front of colgroup and col,", "the colgroup end tag stays in front of colgroup, col and template,")
 
+_amend("C04", "text", "R04.33: the cases of a unit conversion", "R04.34: the alpha of an eight-digit hex colour is dropped or replaced only behind equalities on both of its digits; R04.33: the cases of a unit conversion")
+_amend("C03", "text", "Decides twenty-seven local clauses (R03.1-R03.27;", "Decides twenty-eight local clauses (R03.1-R03.28; R03.28: a condition that looks for a line feed answers alike for a carriage return (truth table);")
+_amend("C01", "text", "(R01.1-R01.57;", "(R01.1-R01.57; R01.33 decides both spellings of the exponent marker (e-, E-);")
+
+_amend("C02", "text", "R02.11: every binding of a scope takes its name from the generator", "R02.2 also demands that the save of the rename switch dominates every other store to it (the caller's value comes back); R02.11: every binding of a scope takes its name from the generator")
+
 if __name__ == "__main__":
     main()
